@@ -30,6 +30,15 @@ func NewCtx(tier string, r *ob.Report) *Ctx {
 	return &Ctx{Tier: tier, R: r, vars: map[string]*variants.Variant{}}
 }
 
+// Share copies the caches of prev (loaded packages, variants, abstract interpretation) into c, so that several
+// properties can be decided in one process without reloading.
+func (c *Ctx) Share(prev *Ctx) {
+	if prev == nil {
+		return
+	}
+	c.src, c.std, c.g, c.skel, c.vars, c.absCache = prev.src, prev.std, prev.g, prev.skel, prev.vars, prev.absCache
+}
+
 func (c *Ctx) Thorough() bool { return c.Tier == "thorough" }
 
 // Src returns the template source; failure is a machinery failure.
